@@ -37,7 +37,7 @@ def cbmc_cmd(job, trace=False):
         cmd += ['--bounds-check', '--pointer-check', '--div-by-zero-check', '--signed-overflow-check',
                 '--unsigned-overflow-check', '--conversion-check', '--pointer-overflow-check']
     else:
-        cmd += ['--z3']
+        cmd += ['--z3', '--slice-formula']
     cmd += job.flags
     if trace:
         cmd += ['--trace']
@@ -61,6 +61,8 @@ def run_job(job, trace_on_fail=True):
         out = p.stdout.decode(errors='replace')
         rc = p.returncode
     except subprocess.TimeoutExpired as e:
+        if job.mode in ('SA', 'SAI') and not getattr(job, 'nosplit', False):
+            return split_run(job, r, env, t0)
         r.seconds = time.time() - t0
         r.reason = 'timeout after %ds' % job.timeout
         r.log = (e.stdout or b'').decode(errors='replace')[-3000:]
@@ -75,6 +77,38 @@ def run_job(job, trace_on_fail=True):
             r.trace = p.stdout.decode(errors='replace')
         except subprocess.TimeoutExpired:
             r.trace = ''
+    return r
+
+
+def split_run(job, r, env, t0):
+    """fallback after a timeout: one solver query per obligation, each on its own formula slice"""
+    p = subprocess.run(cbmc_cmd(job) + ['--show-properties'], stdout=subprocess.PIPE, stderr=subprocess.STDOUT,
+                       env=env, timeout=120)
+    ids = re.findall(r'^Property ([\w.$-]+):', p.stdout.decode(errors='replace'), re.M)
+    if not ids:
+        r.seconds = time.time() - t0
+        r.reason = 'timeout after %ds (and no property list for the per-obligation fallback)' % job.timeout
+        return r
+    outs = []
+    for pid in ids:
+        try:
+            q = subprocess.run(cbmc_cmd(job) + ['--property', pid], stdout=subprocess.PIPE, stderr=subprocess.STDOUT,
+                               env=env, timeout=job.timeout, preexec_fn=_limits)
+        except subprocess.TimeoutExpired:
+            r.seconds = time.time() - t0
+            r.reason = 'timeout after %ds, and obligation %s alone also exceeds %ds' % (job.timeout, pid, job.timeout)
+            return r
+        o = q.stdout.decode(errors='replace')
+        if q.returncode not in (0, 10):
+            r.seconds = time.time() - t0
+            r.reason = 'cbmc exit %d on obligation %s' % (q.returncode, pid)
+            r.log = o
+            return r
+        outs.append(o)
+    r.seconds = time.time() - t0
+    r.cmd += '   [per-obligation fallback: --property <id> for each of %d obligations]' % len(ids)
+    r.log = '\n'.join(outs)
+    parse(r, r.log, 0)
     return r
 
 
